@@ -75,7 +75,64 @@ def enumerated():
     return out
 
 
+DIRECTED_HISTORIES = {'quick': 15, 'thorough': 840}
+_directed_cache = {}
+
+
+def enum_scenario(k):
+    h, behs, refuse, settle = enumerated()[k]
+    ops = []
+    for c in h:
+        ops.append(c)
+        if settle and c in ('connect', 'status'):
+            ops.append('wait_play')
+    sc = make(757, [757], [ops], behs, refuse, 0, 0,
+              make_rng('enum', ID, k), enumerated=True)
+    sc['sched']['granularity'] = 'io'
+    return sc
+
+
+def directed_plan(tier):
+    """Every placement of one forced context switch / early event at every
+    lock, socket, select and API choice point of enumerated histories
+    (pre-emption bound 1 at I/O granularity)."""
+    if tier in _directed_cache:
+        return _directed_cache[tier]
+    enum = enumerated()
+    n = DIRECTED_HISTORIES[tier]
+    step = max(len(enum) // n, 1)
+    picks = list(range(0, len(enum), step))[:n]
+    cases = []
+    for k in picks:
+        sc = enum_scenario(k)
+        tape = Tape(replay=[])
+        execute(sc, tape)
+        for pos in range(tape.pos):
+            for v in (1, 2):
+                cases.append((k, pos, v))
+    _directed_cache[tier] = cases
+    return cases
+
+
+def total(tier, seed):
+    return len(directed_plan(tier)) + RUNS[tier]
+
+
+def tape_for(scenario, seed, index):
+    if 'directed' in scenario:
+        return Tape(replay=scenario['directed'])
+    return None
+
+
 def scenario_for(seed, index, tier):
+    plan = directed_plan(tier)
+    if index < len(plan):
+        k, pos, v = plan[index]
+        sc = enum_scenario(k)
+        sc['directed'] = [[pos, v]]
+        sc['directed_of'] = k
+        return sc
+    index -= len(plan)
     rng = make_rng('scenario', ID, seed, index)
     sup = common.supported()
     enum = enumerated()
@@ -803,7 +860,7 @@ def evidence(tier, seed, m, d):
     import sys
     ev = common.base_evidence(
         sys.modules[__name__], tier, seed, m, d,
-        rule='the first %d x (5 quick / 60 thorough schedules) cases enumerate every single-thread history of '
+        rule='first, every placement of one forced context switch or early event at every lock/socket/select/API choice point of 30 (quick) / all 840 (thorough) enumerated histories; then %d x (5 quick / 60 thorough schedules) cases enumerate every single-thread history of '
              'length <= 3 over {connect, status, disconnect, '
              'disconnect(immediate)} x 5 server line-ups x settle/no-settle; '
              'the rest are seeded histories (1-2 user threads, <= 6 ops, '
